@@ -52,6 +52,15 @@ theorem step_preserves (L : Limits) (d : List SeqTab) (c : SeqTab) (r d' r' : Li
     (h : step L d c r = .ok (d', r')) :
     playProg (d'.reverse ++ r') = playProg (d.reverse ++ c :: r) := (step_post L d c r d' r' h).1
 
+/-- sequence tables are keyed with the scopes of their volatile entries: equal entries whose volatile counts
+have the same property but live in different scopes get two tables … -/
+theorem parse_keeps_scopes_apart :
+    (parse [⟨1, none, [⟨2, 0, some (0, 0)⟩]⟩, ⟨1, none, [⟨2, 0, some (0, 1)⟩]⟩]).seqTabs.length = 2 := by decide
+
+/-- … and share one table when property and scope agree -/
+theorem parse_shares_same_scope :
+    (parse [⟨1, none, [⟨2, 0, some (0, 0)⟩]⟩, ⟨3, none, [⟨2, 0, some (0, 0)⟩]⟩]).seqTabs.length = 1 := by decide
+
 /-! ### the whole preparation -/
 
 /-- accepted ⇒ same play order and every table has at least `min_seq_len` entries -/
